@@ -1,14 +1,24 @@
 (** C06 - arbitrarily long digit strings are still rounded correctly.
-    PROVED (closed by [exact]; proofs/ParseFacts.v): the first stage keeps exactly the first 19
-    significant digits w, reports truncation, and the exact value lies in [w, w+1) * 10^(X+k) with
-    the exponent the saturation of the mathematically exact one - for every valid input of any
-    length (< 2^31 - 2 digits) and both build modes.  The deeper truncation at MAX_DIGITS
-    (parse_mantissa) and the end-to-end consequence are covered by the correspondence/search
-    (exact ties with a digit at depth 20 .. 10^6, tails of 9s, trailing zeros). *)
+    PROVED (closed by [exact]):
+     - stage 1 (proofs/ParseFacts.v): keeps exactly the first 19 significant digits w, reports
+       truncation, and the exact value lies in [w, w+1) * 10^(X+k), exponent = saturation of the exact
+       one - every valid input of any length (< 2^31 - 2 digits), both build modes;
+     - the MAX_DIGITS argument (proofs/TruncFacts.v, TruncFacts2.v): every rounding boundary of the
+       format has at most MAX_DIGITS significant decimal digits ([boundary_digits]; the side condition
+       [trunc_ok] is computed on the REGENERATED constant: for f64 it holds iff MAX_DIGITS >= 768, for
+       f32 iff >= 113 - see [digits_ok] examples in the proof file), no boundary lies strictly inside
+       a cell (N0*10^k, (N0+1)*10^k) of MAX_DIGITS-digit numbers, RN is constant between boundaries,
+       hence keeping MAX_DIGITS digits plus ONE sticky digit `1` when a later digit is non-zero never
+       changes the correctly rounded result ([truncation_preserves_rounding]); and in the shape the
+       property states it: a non-zero digit at any depth breaks an exact tie upward
+       ([far_digit_breaks_tie]), a tail of 9s just below a tie rounds down
+       ([nines_below_tie_round_down]), trailing zeros are irrelevant ([trailing_zeros_irrelevant]).
+    That parse_mantissa implements exactly this truncation is proofs/SlowFacts1.v (in progress) and
+    the correspondence harness (deciding digit at depths 20 .. 10^6, around MAX_DIGITS-2 .. +2). *)
 
 From Coq Require Import ZArith QArith List Bool.
-From ML Require Import base.RustSem model.Fmt model.Number model.Parse model.Top model.Vec model.Bigint spec.Decimal spec.Round spec.RneZ spec.RneBridge
-  gen.Consts gen.Tables gen.BTables gen.PowDump proofs.LimbVal proofs.ParseFacts proofs.Glue proofs.NoUB proofs.BigintFacts2.
+From ML Require Import base.RustSem model.Fmt model.Number model.Parse spec.Decimal spec.Round spec.RoundFacts spec.RneZ
+  gen.Consts proofs.ParseFacts proofs.TruncFacts proofs.TruncFacts2.
 Import ListNotations.
 
 Open Scope Z_scope.
@@ -52,12 +62,159 @@ Theorem C06_parse_number_value_bracket :
             (inject_Z (nmant n) * pow10Q (X + k) <= dec_value i f e < inject_Z (nmant n + 1) * pow10Q (X + k))%Q).
 Proof. exact parse_number_value_bracket. Qed.
 
-Theorem C06_parse_number_exact :
-  forall (b : build) (i f : list Z) (e : Z),
-         valid_inputb i f e = true -> parse_number b i f e = Ok (parse_spec i f e).
-Proof. exact parse_number_exact. Qed.
+Theorem C06_trunc_ok_F32 :
+  trunc_ok F32 = true.
+Proof. exact trunc_ok_F32. Qed.
+
+Theorem C06_trunc_ok_F64 :
+  trunc_ok F64 = true.
+Proof. exact trunc_ok_F64. Qed.
+
+Theorem C06_boundary_digits :
+  forall (f : format) (M E : Z),
+         trunc_ok f = true ->
+         boundary f M E -> exists c j : Z, 0 < c < 10 ^ MAX_DIGITS f /\ bndQ M E == decQ c j.
+Proof. exact boundary_digits. Qed.
+
+Theorem C06_no_boundary_in_cell :
+  forall (f : format) (N0 k M E : Z),
+         trunc_ok f = true ->
+         boundary f M E ->
+         10 ^ (MAX_DIGITS f - 1) <= N0 -> (decQ N0 k < bndQ M E)%Q -> (bndQ M E < decQ (N0 + 1) k)%Q -> False.
+Proof. exact no_boundary_in_cell. Qed.
+
+Theorem C06_RN_const_between :
+  forall f : format,
+         sfmt_ok f = true ->
+         forall v1 v2 : Q,
+         (0 <= v1)%Q ->
+         (v1 <= v2)%Q ->
+         (forall M E : Z, boundary f M E -> (v1 <= bndQ M E)%Q -> (bndQ M E <= v2)%Q -> False) ->
+         RN f v1 = RN f v2.
+Proof. exact RN_const_between. Qed.
+
+Theorem C06_RN_cell_const :
+  forall f : format,
+         sfmt_ok f = true ->
+         trunc_ok f = true ->
+         forall (a k : Z) (v1 v2 : Q),
+         10 ^ (MAX_DIGITS f - 1) <= a ->
+         (decQ a k < v1)%Q ->
+         (v1 < decQ (a + 1) k)%Q -> (decQ a k < v2)%Q -> (v2 < decQ (a + 1) k)%Q -> RN f v1 = RN f v2.
+Proof. exact RN_cell_const. Qed.
+
+Theorem C06_truncation_preserves_rounding :
+  forall f : format,
+         sfmt_ok f = true ->
+         trunc_ok f = true ->
+         forall (s : list Z) (X : Z),
+         forallb digitb s = true ->
+         hd 48 s <> 48 ->
+         MAX_DIGITS f < zlen s ->
+         let n := Z.to_nat (MAX_DIGITS f) in
+         let N0 := digits_to_Z (firstn n s) in
+         let rest := skipn n s in
+         let k := X + zlen s - MAX_DIGITS f in
+         10 ^ (MAX_DIGITS f - 1) <= N0 < 10 ^ MAX_DIGITS f /\
+         (all0 rest = false -> RN f (decQ (digits_to_Z s) X) = RN f (decQ (N0 * 10 + 1) (k - 1))) /\
+         (all0 rest = true ->
+          digits_to_Z s = N0 * 10 ^ (zlen s - MAX_DIGITS f) /\
+          decQ (digits_to_Z s) X == decQ N0 k /\ RN f (decQ (digits_to_Z s) X) = RN f (decQ N0 k)).
+Proof. exact truncation_preserves_rounding. Qed.
+
+Theorem C06_truncation_preserves_rounding_F64 :
+  forall (s : list Z) (X : Z),
+         forallb digitb s = true ->
+         hd 48 s <> 48 ->
+         MAX_DIGITS F64 < zlen s ->
+         let n := Z.to_nat (MAX_DIGITS F64) in
+         let N0 := digits_to_Z (firstn n s) in
+         let rest := skipn n s in
+         let k := X + zlen s - MAX_DIGITS F64 in
+         10 ^ (MAX_DIGITS F64 - 1) <= N0 < 10 ^ MAX_DIGITS F64 /\
+         (all0 rest = false -> RN F64 (decQ (digits_to_Z s) X) = RN F64 (decQ (N0 * 10 + 1) (k - 1))) /\
+         (all0 rest = true ->
+          digits_to_Z s = N0 * 10 ^ (zlen s - MAX_DIGITS F64) /\
+          decQ (digits_to_Z s) X == decQ N0 k /\ RN F64 (decQ (digits_to_Z s) X) = RN F64 (decQ N0 k)).
+Proof. exact truncation_preserves_rounding_F64. Qed.
+
+Theorem C06_truncation_preserves_rounding_F32 :
+  forall (s : list Z) (X : Z),
+         forallb digitb s = true ->
+         hd 48 s <> 48 ->
+         MAX_DIGITS F32 < zlen s ->
+         let n := Z.to_nat (MAX_DIGITS F32) in
+         let N0 := digits_to_Z (firstn n s) in
+         let rest := skipn n s in
+         let k := X + zlen s - MAX_DIGITS F32 in
+         10 ^ (MAX_DIGITS F32 - 1) <= N0 < 10 ^ MAX_DIGITS F32 /\
+         (all0 rest = false -> RN F32 (decQ (digits_to_Z s) X) = RN F32 (decQ (N0 * 10 + 1) (k - 1))) /\
+         (all0 rest = true ->
+          digits_to_Z s = N0 * 10 ^ (zlen s - MAX_DIGITS F32) /\
+          decQ (digits_to_Z s) X == decQ N0 k /\ RN F32 (decQ (digits_to_Z s) X) = RN F32 (decQ N0 k)).
+Proof. exact truncation_preserves_rounding_F32. Qed.
+
+Theorem C06_far_digit_breaks_tie :
+  forall f : format,
+         sfmt_ok f = true ->
+         trunc_ok f = true ->
+         forall (s : list Z) (X M E : Z),
+         forallb digitb s = true ->
+         hd 48 s <> 48 ->
+         MAX_DIGITS f < zlen s ->
+         canon0 f M E ->
+         E + prec f <= emax f ->
+         let n := Z.to_nat (MAX_DIGITS f) in
+         let N0 := digits_to_Z (firstn n s) in
+         let rest := skipn n s in
+         let k := X + zlen s - MAX_DIGITS f in
+         decQ N0 k == bndQ M E ->
+         all0 rest = false ->
+         RN f (decQ (digits_to_Z s) X) = RoundFacts.encode f M E + 1 /\
+         RN f (decQ (N0 * 10 + 1) (k - 1)) = RoundFacts.encode f M E + 1.
+Proof. exact far_digit_breaks_tie. Qed.
+
+Theorem C06_nines_below_tie_round_down :
+  forall f : format,
+         sfmt_ok f = true ->
+         trunc_ok f = true ->
+         forall (s : list Z) (X M E : Z),
+         forallb digitb s = true ->
+         hd 48 s <> 48 ->
+         MAX_DIGITS f < zlen s ->
+         canon0 f M E ->
+         E + prec f <= emax f ->
+         let n := Z.to_nat (MAX_DIGITS f) in
+         let N0 := digits_to_Z (firstn n s) in
+         let rest := skipn n s in
+         let k := X + zlen s - MAX_DIGITS f in
+         decQ (N0 + 1) k == bndQ M E ->
+         all0 rest = false ->
+         RN f (decQ (digits_to_Z s) X) = RoundFacts.encode f M E /\
+         RN f (decQ (N0 * 10 + 1) (k - 1)) = RoundFacts.encode f M E.
+Proof. exact nines_below_tie_round_down. Qed.
+
+Theorem C06_trailing_zeros_irrelevant :
+  forall f : format,
+         sfmt_ok f = true ->
+         forall (s : list Z) (z : nat) (X : Z),
+         forallb digitb s = true ->
+         decQ (digits_to_Z (s ++ zeros z)) (X - Z.of_nat z) == decQ (digits_to_Z s) X /\
+         RN f (decQ (digits_to_Z (s ++ zeros z)) (X - Z.of_nat z)) = RN f (decQ (digits_to_Z s) X).
+Proof. exact trailing_zeros_irrelevant. Qed.
 
 
 Print Assumptions C06_parse_number_spec.
 Print Assumptions C06_parse_number_value_bracket.
-Print Assumptions C06_parse_number_exact.
+Print Assumptions C06_trunc_ok_F32.
+Print Assumptions C06_trunc_ok_F64.
+Print Assumptions C06_boundary_digits.
+Print Assumptions C06_no_boundary_in_cell.
+Print Assumptions C06_RN_const_between.
+Print Assumptions C06_RN_cell_const.
+Print Assumptions C06_truncation_preserves_rounding.
+Print Assumptions C06_truncation_preserves_rounding_F64.
+Print Assumptions C06_truncation_preserves_rounding_F32.
+Print Assumptions C06_far_digit_breaks_tie.
+Print Assumptions C06_nines_below_tie_round_down.
+Print Assumptions C06_trailing_zeros_irrelevant.
